@@ -46,7 +46,8 @@ where
     }
 
     let source = self.source.clone();
-    let subject = self.subject.clone();
+    // the hook is stored inside the subject: it must not own the subject
+    let subject = self.subject.emitter();
     let subscription = Arc::clone(&self.subscription);
     let connected = Arc::new(RwLock::new(false));
 
